@@ -627,6 +627,92 @@ theorem checkLoop_consistent : ∀ (steps : List Step) (acc : List Annot), Consi
   | some .importNotExist :: _, _ => by simp [checkLoop, Consistent]
   | some .other :: _, _ => by simp [checkLoop, Consistent]
 
+theorem runSteps_eq_none_iff : ∀ (steps : List Step), runSteps steps = none ↔ ∀ s ∈ steps, s = none
+  | [] => by simp [runSteps]
+  | none :: rest => by simp [runSteps, runSteps_eq_none_iff rest]
+  | some e :: _ => by simp [runSteps]
+
+/-- complete description of the return path of a mode whose performed I/O steps succeed -/
+theorem fmtTail_clean (m : FmtMode) (d : Bool) (io : FmtIO) (h : ∀ s ∈ m.ioSteps d io, s = none) :
+    fmtTail m d io = (fmtDeferred m d,
+      { stdoutDiff := m.diff && d,
+        stdoutSource := !m.diff && !m.write && m.out == .stdout,
+        rewrote := m.write && d,
+        wroteOut := !m.write && m.out == .path }) := by
+  rcases m with ⟨md, mw, mo, me⟩
+  rcases io with ⟨c, r, o⟩
+  cases md <;> cases mw <;> cases mo <;> cases d <;>
+    simp_all [fmtTail, FmtMode.ioSteps, FmtEffects.none]
+
+/-- a performed I/O step that fails makes the run fail with that step's error -/
+theorem fmtTail_dirty (m : FmtMode) (d : Bool) (io : FmtIO) (h : ¬ ∀ s ∈ m.ioSteps d io, s = none) :
+    ∃ e, (fmtTail m d io).1 = failStep e [] := by
+  rcases m with ⟨md, mw, mo, me⟩
+  rcases io with ⟨c, r, o⟩
+  cases md <;> cases mw <;> cases mo <;> cases d <;> cases c <;> cases r <;> cases o <;>
+    simp_all [fmtTail, FmtMode.ioSteps, FmtEffects.none] <;> exact ⟨_, rfl⟩
+
+theorem failStep_diff (e : StepErr) : (failStep e []).diff = false := by
+  cases e <;> rfl
+
+theorem runSteps_diff : ∀ (steps : List Step) (o : Outcome), runSteps steps = some o → o.diff = false
+  | [], _, h => by simp [runSteps] at h
+  | none :: rest, o, h => runSteps_diff rest o (by simpa [runSteps] using h)
+  | some e :: _, o, h => by
+    simp only [runSteps, Option.some.injEq] at h
+    exact h ▸ failStep_diff e
+
+theorem fmtDeferred_consistent (m : FmtMode) (d : Bool) : Consistent (fmtDeferred m d) := by
+  unfold fmtDeferred
+  split <;> simp [Consistent]
+
+theorem fmtTail_consistent (m : FmtMode) (d : Bool) (io : FmtIO) : Consistent (fmtTail m d io).1 := by
+  unfold fmtTail
+  dsimp only
+  split
+  · exact failStep_consistent _
+  · split
+    · exact fmtDeferred_consistent m d
+    · split
+      · split
+        · exact failStep_consistent _
+        · exact fmtDeferred_consistent m d
+      · split
+        · exact failStep_consistent _
+        · exact fmtDeferred_consistent m d
+
+theorem formatFull_consistent (m : FmtMode) (sw : Bool) (ctl : List Step) (f : Step) (d : Bool)
+    (io : FmtIO) : Consistent (formatFull m sw ctl f d io).1 := by
+  unfold formatFull
+  split
+  · exact failStep_consistent .other
+  · split
+    · rename_i o h; exact runSteps_consistent _ o h
+    · exact fmtTail_consistent m d io
+
+/-- the run reaches the mode's return path and every I/O step the mode performs succeeds -/
+def FmtClean (m : FmtMode) (sw : Bool) (ctl : List Step) (f : Step) (d : Bool) (io : FmtIO) : Prop :=
+  m.valid sw = true ∧ (∀ s ∈ ctl, s = none) ∧ f = none ∧ (∀ s ∈ m.ioSteps d io, s = none)
+
+theorem formatFull_clean {m : FmtMode} {sw : Bool} {ctl : List Step} {f : Step} {d : Bool} {io : FmtIO}
+    (h : FmtClean m sw ctl f d io) :
+    formatFull m sw ctl f d io = (fmtDeferred m d,
+      { stdoutDiff := m.diff && d,
+        stdoutSource := !m.diff && !m.write && m.out == .stdout,
+        rewrote := m.write && d,
+        wroteOut := !m.write && m.out == .path }) := by
+  obtain ⟨hv, hc, hf, hio⟩ := h
+  have hr : runSteps (ctl ++ [f]) = none := by
+    rw [runSteps_eq_none_iff]
+    intro s hs
+    rcases List.mem_append.mp hs with h | h
+    · exact hc s h
+    · rw [List.mem_singleton] at h; rw [h, hf]
+  unfold formatFull
+  rw [hv, hr]
+  simp only [Bool.not_true, Bool.false_eq_true, if_false]
+  exact fmtTail_clean m d io hio
+
 theorem run_consistent (c : Cmd) : Consistent c.run := by
   cases c with
   | lint ctl k =>
@@ -644,15 +730,9 @@ theorem run_consistent (c : Cmd) : Consistent c.run := by
     split
     · rename_i o h; exact runSteps_consistent _ o h
     · simp [Consistent]
-  | format fl ctl f d o =>
+  | format m sw ctl f d io =>
     simp only [Cmd.run, format]
-    split
-    · rename_i o' h; exact runSteps_consistent _ o' h
-    · split
-      · exact failStep_consistent _
-      · split
-        · simp [Consistent]
-        · simp [Consistent]
+    exact formatFull_consistent m sw ctl f d io
 
 /-! ### groupAnnotationsByPath: flattening the JUnit suites gives back the list when equal
     displayed paths are adjacent -/
